@@ -326,7 +326,7 @@ class IRGenerator:
         for item in desc[1:]:
             if isinstance(item, AstNamespace):
                 raise InvalidSpec('Only one namespace declaration per file.',
-                                  item[0].lineno, item[0].path)
+                                  item.lineno, item.path)
         return desc.pop(0)
 
     def _add_data_types_and_routes_to_api(self, namespace, desc):
